@@ -107,7 +107,7 @@ func classify(err error) string {
 	switch {
 	case strings.Contains(m, "message authentication failed"):
 		return "aead:auth"
-	case m == "invalid ciphertext size":
+	case m == "invalid ciphertext size", m == "invalid nonce size":
 		return "aead:size"
 	case strings.HasPrefix(m, "cek must be"), strings.HasPrefix(m, "wrapped key must be"):
 		return "kw:size"
@@ -1251,6 +1251,31 @@ func (h *H) cbcHmacDirect() {
 						h.res.Violate("cbchmac-misaligned-accepted", "Open accepted a body that is not whole blocks", fc)
 					}
 					h.queue("aescbcaead.Open = model cbcHmacOpen", oline(nonce, forged, ad), canonOut(o), fc)
+				}
+			}
+			// a nonce that is not one block long, with a tag that verifies for it: an error, not a panic
+			if hf := macFor(ct.name); hf != nil {
+				for _, nl := range []int{0, 1, 15, 17, 32} {
+					n2 := h.rng.Bytes(nl)
+					body := so.a[:len(so.a)-ct.tagLen]
+					mac := hmac.New(hf, key[:ct.keyLen-encLen(ct.name)])
+					al := make([]byte, 8)
+					binary.BigEndian.PutUint64(al, uint64(len(ad))*8)
+					mac.Write(ad)
+					mac.Write(n2)
+					mac.Write(body)
+					mac.Write(al)
+					forged := append(cp(body), mac.Sum(nil)[:ct.tagLen]...)
+					o := open(n2, forged, ad)
+					fc := Case{Family: "cbchmac", Monitor: "cbchmac-misaligned", Alg: ct.name, Key: hx(key), Nonce: hx(n2), Data: hx(forged), AD: hx(ad), Mut: "valid tag under a nonce that is not 16 bytes"}
+					h.res.Count(oline(n2, forged, ad), true)
+					h.res.Hit("cbchmac:wrong-nonce-authentic")
+					if o.class == "panic" || o.class == "timeout" {
+						h.res.Violate("cbchmac-open-"+o.class, "Open with a nonce of the wrong size and a verifying tag "+o.class+": "+o.msg, fc)
+					} else if o.class == "ok" {
+						h.res.Violate("cbchmac-misaligned-accepted", "Open accepted a nonce that is not one block long", fc)
+					}
+					h.queue("aescbcaead.Open = model cbcHmacOpen", oline(n2, forged, ad), canonOut(o), fc)
 				}
 			}
 			for cut := 1; cut <= len(so.a); cut += 1 + cut/5 {
